@@ -44,9 +44,10 @@ class AbsWriterReplay:
     API (canonical history), the operation runs on the real crate, and the claims are re-evaluated on the native
     logical stream / cursor / page count."""
 
-    def __init__(self, op_rust, extra=None, patch=None, module="paged_writer.rs", driver=None):
+    def __init__(self, op_rust, extra=None, patch=None, module="paged_writer.rs", driver=None, extra_files=None):
         self.op_rust, self.extra, self.patch, self.module = op_rust, extra, patch, module
         self.driver = driver or WRITER_DRIVER
+        self.extra_files = extra_files or {}          # {module.rs: test-only helper text} appended besides the driver
 
     def extract(self, I, model, s):
         npages, cursor = mval(model, s.npages), mval(model, s.cursor)
@@ -62,7 +63,9 @@ class AbsWriterReplay:
     def run(self, I, scenario, claim_name, pre):
         code = self.driver % dict(helpers=HELPERS, stream=rust_bytes(pre["stream"]), pending=rust_bytes(pre["pending"]),
                                   P=pre["P"], npages=pre["npages"], op=self.op_rust(pre), fault_at=-1, shorts="")
-        rc, out = run_rust_test(I.crate_dir, self.module, code)
+        files = dict(self.extra_files)
+        files[self.module] = files.get(self.module, "") + "\n" + code
+        rc, out = run_rust_test(I.crate_dir, None, files)
         kv = parse_kv(out)
         info = dict(pre={k: (len(v) if isinstance(v, bytes) else v) for k, v in pre.items()}, rust=code)
         pan = native_panicked(out)
